@@ -22,9 +22,10 @@ def main():
     # one snapshot of /repo for the whole run, so that the corpus is judged against one tree
     snap = tempfile.mkdtemp(prefix="pvcsnap_")
     sh(f"rsync -a --exclude .git /repo/ {snap}/repo/")
-    for m in mutants:
-        if key and key not in m["id"]:
-            continue
+    jobs = 4
+    if "-j" in args:
+        jobs = int(args[args.index("-j") + 1])
+    def one(m):
         tmp = tempfile.mkdtemp(prefix="pvcmut_")
         try:
             repo = os.path.join(tmp, "repo")
@@ -32,9 +33,7 @@ def main():
             path = os.path.join(repo, m["file"])
             src = open(path).read()
             if m["old"] not in src:
-                print(f"SKIP {m['id']}: pattern not found in {m['file']}")
-                bad += 1
-                continue
+                return False, f"SKIP {m['id']}: pattern not found in {m['file']}"
             src = src.replace(m["old"], m["new"], 1)
             if m.get("needs_import"):
                 _, a, b = m["needs_import"]
@@ -42,32 +41,34 @@ def main():
             open(path, "w").write(src)
             rc, out = sh("go build ./...", cwd=repo)
             if rc != 0:
-                print(f"INVALID {m['id']}: does not build\n{out[-400:]}")
-                bad += 1
-                continue
+                return False, f"INVALID {m['id']}: does not build\n{out[-400:]}"
             if not notests and not m.get("fails_tests"):
                 rc, out = sh("go test -vet=off -count=1 ./...", cwd=repo)
                 if rc != 0:
-                    print(f"INVALID {m['id']}: baseline tests fail with the mutant")
-                    bad += 1
-                    continue
+                    return False, f"INVALID {m['id']}: baseline tests fail with the mutant"
             rc, out = sh(f"/verif/bin/pvc check -repo {repo} {m['prop']} quick", cwd="/verif")
             viol = [l for l in out.splitlines() if l.startswith("VIOLATION")]
             hit = [l for l in viol if re.search(m["expect"], l)]
             if rc == 1 and hit:
                 tag = "" if "no-failing-input-found" in hit[0] else " (replayed)"
-                print(f"CAUGHT {m['id']}: {m['prop']} {hit[0].split('obligation=')[1][:120]}{tag}")
-                ok += 1
-            else:
-                print(f"MISSED {m['id']}: rc={rc} violations={len(viol)} expected /{m['expect']}/")
-                for l in viol[:5]:
-                    print("    " + l[:200])
-                if rc not in (0, 1):
-                    print(out[-600:])
-                bad += 1
+                return True, f"CAUGHT {m['id']}: {m['prop']} {hit[0].split('obligation=')[1][:120]}{tag}"
+            msg = f"MISSED {m['id']}: rc={rc} violations={len(viol)} expected /{m['expect']}/"
+            for l in viol[:5]:
+                msg += "\n    " + l[:200]
+            if rc not in (0, 1):
+                msg += "\n" + out[-600:]
+            return False, msg
         finally:
             shutil.rmtree(tmp, ignore_errors=True)
-            pass
+    from concurrent.futures import ThreadPoolExecutor
+    todo = [m for m in mutants if not key or key in m["id"]]
+    with ThreadPoolExecutor(jobs) as ex:
+        for good, msg in ex.map(one, todo):
+            print(msg, flush=True)
+            if good:
+                ok += 1
+            else:
+                bad += 1
     shutil.rmtree(snap, ignore_errors=True)
     print(f"selftest: {ok} caught, {bad} not")
     sys.exit(0 if bad == 0 else 1)
